@@ -384,6 +384,7 @@ static void run_cmd(char *line)
     if (!strcmp(tok[1], "owner")) econf_requireOwner((uid_t)atoi(tok[2]));
     else if (!strcmp(tok[1], "group")) econf_requireGroup((gid_t)atoi(tok[2]));
     else if (!strcmp(tok[1], "nosymlink")) econf_followSymlinks(atoi(tok[2]) == 0);
+    else if (!strcmp(tok[1], "perms")) econf_requirePermissions((mode_t)strtol(tok[2], NULL, 8), (mode_t)strtol(tok[3], NULL, 8));
     else if (!strcmp(tok[1], "reset")) econf_reset_security_settings();
     else if (!strcmp(tok[1], "confdirs")) {
       const char *lst[MAXTOK]; int k = 0;
@@ -626,6 +627,7 @@ static int threads_main(void)
 
 int main(int argc, char **argv)
 {
+  umask(022);   /* files 0644, directories 0755: what the model's `modeOf` says */
   const char *base = getenv("VERIF_SCRATCH");
   if (!base) base = access("/dev/shm", W_OK) == 0 ? "/dev/shm" : "/tmp";
   if (argc > 1) timeout_s = atoi(argv[1]);
